@@ -93,7 +93,8 @@ def try_(prop, d, tier='quick'):
         print('patch does not apply', out); return None
     try:
         t0 = time.time()
-        rc, out = sh([os.path.join(VERIF, 'bin', 'check'), prop, tier], cwd=VERIF, timeout=7200)
+        ENV['VERIF_OP_TIMEOUT'] = '600' if tier == 'quick' else '7200'
+        rc, out = sh([os.path.join(VERIF, 'bin', 'check'), prop, tier], cwd=VERIF, timeout=1500 if tier == 'quick' else 14400)
         lines = [l for l in out.split('\n') if l.startswith('VIOLATION') or l.startswith('KNOWN')]
         return {'prop': prop, 'exit': rc, 'violations': lines[:3], 'wall': round(time.time() - t0, 1),
                 'found_input': any('no-failing-input-found' not in l for l in lines if l.startswith('VIOLATION')), 'tail': out.strip().split('\n')[-1]}
